@@ -152,4 +152,17 @@ theorem wellOwned_append : ∀ (a b : List Op) (st : St), WellOwned st a →
       apply hb
       simp [exec, hs, bind, Except.bind, he]
 
+
+theorem exec_append : ∀ (a b : List Op) (st : St), exec st (a ++ b) = (exec st a >>= fun s => exec s b)
+  | [], b, st => by simp [exec, bind, Except.bind, pure, Except.pure]
+  | op :: rest, b, st => by
+    simp only [List.cons_append, exec]
+    cases hs : step st op with
+    | error e => rfl
+    | ok r =>
+      simp only [bind, Except.bind]
+      have := exec_append rest b r.1
+      simp only [bind, Except.bind] at this
+      exact this
+
 end Strophe.Store
